@@ -35,37 +35,28 @@ theorem tick_eq (s : Rpc) (h : s.ring ≠ []) :
       unfold Rpc.tick
       simp only [hr, ho, Rpc.afterSwap, Rpc.nextItems, order, List.headD_cons, List.tail_cons]
 
-theorem request_fields (s : Rpc) (c : Bool) :
-    (s.request c).1.ring = addRing s.ring (s.idAlloc + 1) ∧ (s.request c).1.idAlloc = s.idAlloc + 1 ∧
-    (s.request c).1.pending = pendingErase s.pending (s.idAlloc + 1) ++ [(s.idAlloc + 1, { tag := s.nTag, chain := c })] ∧
-    (s.request c).1.nTag = s.nTag + 1 ∧ (s.request c).1.vn = s.vn + 1 ∧
-    (s.request c).1.timerOn = (if s.vn = 0 then true else s.timerOn) := by
+theorem request_fields (s : Rpc) (c m : Nat) :
+    (s.request c m).1.ring = addRing s.ring (s.idAlloc + 1) ∧ (s.request c m).1.idAlloc = s.idAlloc + 1 ∧
+    (s.request c m).1.pending = pendingErase s.pending (s.idAlloc + 1) ++ [(s.idAlloc + 1, { tag := s.nTag, script := c })] ∧
+    (s.request c m).1.nTag = s.nTag + 1 ∧ (s.request c m).1.vn = s.vn + 1 ∧
+    (s.request c m).1.timerOn = (if s.vn = 0 then true else s.timerOn) := by
   unfold Rpc.request
   simp only
   have := monitorAdd_fields
     { s with idAlloc := s.idAlloc + 1, nTag := s.nTag + 1,
-             pending := pendingErase s.pending (s.idAlloc + 1) ++ [(s.idAlloc + 1, { tag := s.nTag, chain := c })] }
+             pending := pendingErase s.pending (s.idAlloc + 1) ++ [(s.idAlloc + 1, { tag := s.nTag, script := c })] }
     (s.idAlloc + 1)
   simpa using this
 
-/-- what `complete` does to the state: nothing, or (maybe a chained request, then) one erase -/
-theorem complete_cases (s : Rpc) (id code : Int) :
-    (pendingFind s.pending id = none ∧ s.complete id code = (s, [])) ∨
-    ∃ k cb, pendingFind s.pending id = some (k, cb) ∧
-      ((cb.chain = false ∧ s.complete id code =
-          ({ s with pending := pendingErase s.pending k }, [.fired cb.tag code])) ∨
-       (cb.chain = true ∧ s.complete id code =
-          ({ (s.request false).1 with pending := pendingErase (s.request false).1.pending k },
-           .fired cb.tag code :: (s.request false).2))) := by
-  cases hf : pendingFind s.pending id with
-  | none => left; exact ⟨rfl, by unfold Rpc.complete; simp [hf]⟩
-  | some e =>
-    right
-    obtain ⟨k, cb⟩ := e
-    refine ⟨k, cb, rfl, ?_⟩
-    unfold Rpc.complete Rpc.fire
-    simp only [hf]
-    cases hc : cb.chain <;> simp
+/-- no callback script of the object's program calls `cleanup()` -/
+abbrev Safe (s : Rpc) : Prop := ProgAll Act.noCleanup s.prog
+
+theorem Safe_of_prog (s s' : Rpc) (h : s'.prog = s.prog) (hs : Safe s) : Safe s' := by
+  unfold Safe; rw [h]; exact hs
+
+theorem noCleanup_nc (okId : Int → Prop) (hall : ∀ y, okId y) (a : Act) (h : a.noCleanup) :
+    a ≠ .cleanup ∧ injectOk okId a := by
+  cases a <;> simp_all [Act.noCleanup, injectOk]
 
 /-! ### "only fresh ids are added" -/
 
@@ -87,31 +78,33 @@ theorem Adds_trans (a b c : Rpc) (h1 : Adds a b) (h2 : Adds b c) : Adds a c := b
   · have := b1 y hy; omega
   · have := b2 y hy; omega
 
-theorem Adds_request (s : Rpc) (c : Bool) : Adds s (s.request c).1 := by
-  obtain ⟨hr, hi, _⟩ := request_fields s c
+theorem Adds_request (s : Rpc) (c m : Nat) : Adds s (s.request c m).1 := by
+  obtain ⟨hr, hi, _⟩ := request_fields s c m
   refine ⟨by omega, [s.idAlloc + 1], by simp [hr], ?_⟩
   intro y hy; simp at hy; omega
 
-theorem Adds_complete (s : Rpc) (id code : Int) : Adds s (s.complete id code).1 := by
-  rcases complete_cases s id code with ⟨_, h⟩ | ⟨k, cb, _, ⟨_, h⟩ | ⟨_, h⟩⟩
-  · rw [h]; exact Adds_refl s
-  · rw [h]; exact Adds_of_eq _ _ rfl rfl
-  · rw [h]
-    exact Adds_trans _ _ _ (Adds_request s false) (Adds_of_eq _ _ rfl rfl)
+theorem Adds_frame (s s' : Rpc) (h : CFrame s s') : Adds s s' := Adds_of_eq _ _ h.2.2.2.2.1 h.2.1
 
-theorem Adds_completeAll (code : Int) (ids : List Nat) : ∀ s : Rpc, Adds s (s.completeAll code ids).1 := by
-  induction ids with
-  | nil => intro s; exact Adds_refl s
-  | cons id ids ih =>
-    intro s
-    simp only [Rpc.completeAll]
-    exact Adds_trans _ _ _ (Adds_complete s id code) (ih _)
+theorem goodAdds : Good (fun a b => b.prog = a.prog ∧ Adds a b) Act.noCleanup (fun _ => True) where
+  refl := fun s => ⟨rfl, Adds_refl s⟩
+  trans := fun a b c h1 h2 => ⟨h2.1.trans h1.1, Adds_trans a b c h1.2 h2.2⟩
+  prog := fun _ _ h => h.1
+  frame := fun s s' h => ⟨h.2.2.2.2.2.2.2.2.2, Adds_frame s s' h⟩
+  req := fun s c m => ⟨request_prog s c m, Adds_request s c m⟩
+  erase := fun s k _ => ⟨rfl, Adds_of_eq _ _ rfl rfl⟩
+  nc := fun a h => noCleanup_nc _ (fun _ => trivial) a h
 
-theorem Adds_respond (s : Rpc) (rid code : Int) : Adds s (s.respond rid code).1 := by
-  unfold Rpc.respond Rpc.respondG
-  split
-  · exact Adds_refl s
-  · exact Adds_complete s _ code
+theorem Adds_complete (s : Rpc) (hs : Safe s) (id code : Int) : Adds s (s.complete id code).1 :=
+  (goodAdds.complete s hs id code trivial).2
+
+theorem Adds_completeAll (code : Int) (ids : List Nat) (s : Rpc) (hs : Safe s) : Adds s (s.completeAll code ids).1 :=
+  (goodAdds.completeAll code ids s hs (fun _ _ => trivial)).2
+
+theorem Adds_respond (s : Rpc) (hs : Safe s) (rid code : Int) : Adds s (s.respond rid code).1 :=
+  (goodAdds.respond s hs rid code (fun _ _ => trivial)).2
+
+theorem Adds_onRequest (s : Rpc) (hs : Safe s) (id : Int) (m : Nat) : Adds s (s.onRequest id m).1 :=
+  (goodAdds.onRequest s hs id m).2
 
 /-- a ring property kept by every addition of an id above `lo` is kept along `Adds` -/
 theorem Adds_pres (P : List (List Nat) → Prop) (lo : Nat)
@@ -246,20 +239,26 @@ theorem Gone_adds (s s' : Rpc) (x : Nat) (h : Adds s s') (hg : Gone s x) : Gone 
     (fun r y hy hr => by rw [cnt_add x y r (by omega)]; exact hr) s s' h h1 h3
   exact ⟨by have := h.1; omega, Adds_ring_ne s s' h h2, this⟩
 
-theorem step_nontick_adds (s : Rpc) (op : Op) (h : op ≠ .tick) : Adds s (step s op).1 := by
+theorem step_nontick_adds (s : Rpc) (hs : Safe s) (op : Op) (h : op ≠ .tick) (hc : op ≠ .cleanup) :
+    Adds s (step s op).1 := by
   cases op with
-  | request c => exact Adds_request s c
-  | notify => exact Adds_refl s
-  | response id code => exact Adds_respond s id code
+  | request c m => exact Adds_request s c m
+  | notify m => exact Adds_refl s
+  | response id code => exact Adds_respond s hs id code
   | tick => exact absurd rfl h
+  | apiRespond id code => exact Adds_frame _ _ (apiRespond_frame s id code)
+  | inRequest id m => exact Adds_onRequest s hs id m
+  | stick => exact Adds_of_eq _ _ rfl rfl
+  | setService m h => exact Adds_of_eq _ _ rfl rfl
+  | cleanup => exact absurd rfl hc
 
-theorem tick_adds (s : Rpc) (h : s.ring ≠ []) : Adds s.afterSwap s.tick.1 := by
-  rw [tick_eq s h]; exact Adds_completeAll _ _ _
+theorem tick_adds (s : Rpc) (hs : Safe s) (h : s.ring ≠ []) : Adds s.afterSwap s.tick.1 := by
+  rw [tick_eq s h]; exact Adds_completeAll _ _ _ hs
 
-theorem Gone_tick (s : Rpc) (x : Nat) (hg : Gone s x) : Gone s.tick.1 x ∧ s.nextItems.count x = 0 := by
+theorem Gone_tick (s : Rpc) (hs : Safe s) (x : Nat) (hg : Gone s x) : Gone s.tick.1 x ∧ s.nextItems.count x = 0 := by
   obtain ⟨h1, h2, h3⟩ := hg
   have hc := cnt_afterSwap s x h2
-  refine ⟨Gone_adds _ _ x (tick_adds s h2) ⟨h1, afterSwap_ring_ne s, by omega⟩, by omega⟩
+  refine ⟨Gone_adds _ _ x (tick_adds s hs h2) ⟨h1, afterSwap_ring_ne s, by omega⟩, by omega⟩
 
 theorem runHanded_tick (s : Rpc) (ops : List Op) :
     runHanded s (.tick :: ops) = s.nextItems :: runHanded s.tick.1 ops := rfl
@@ -270,29 +269,33 @@ theorem runHanded_nontick (s : Rpc) (op : Op) (ops : List Op) (h : op ≠ .tick)
   | tick => exact absurd rfl h
   | _ => rfl
 
-theorem Gone_run (x : Nat) (ops : List Op) : ∀ (s : Rpc), Gone s x →
+theorem Gone_run (x : Nat) (ops : List Op) : ∀ (s : Rpc), Safe s → NoCleanupOps ops → Gone s x →
     ∀ (j : Nat) (items : List Nat), (runHanded s ops)[j]? = some items → items.count x = 0 := by
   induction ops with
-  | nil => intro s _ j items h; simp [runHanded] at h
+  | nil => intro s _ _ _ j items h; simp [runHanded] at h
   | cons op ops ih =>
-    intro s hg j items h
+    intro s hs hnc hg j items h
+    have hnc' : NoCleanupOps ops := fun o ho => hnc o (List.mem_cons_of_mem _ ho)
+    have hs' : Safe (step s op).1 := Safe_of_prog _ _ (step_prog s op) hs
     by_cases ht : op = .tick
     · subst ht
       rw [runHanded_tick] at h
-      obtain ⟨hg', hc⟩ := Gone_tick s x hg
+      obtain ⟨hg', hc⟩ := Gone_tick s hs x hg
       cases j with
       | zero => simp at h; rw [← h]; exact hc
-      | succ j => rw [List.getElem?_cons_succ] at h; exact ih _ hg' j items h
+      | succ j => rw [List.getElem?_cons_succ] at h; exact ih _ hs' hnc' hg' j items h
     · rw [runHanded_nontick s op ops ht] at h
-      exact ih _ (Gone_adds _ _ x (step_nontick_adds s op ht) hg) j items h
+      exact ih _ hs' hnc' (Gone_adds _ _ x (step_nontick_adds s hs op ht (hnc op (by simp))) hg) j items h
 
-theorem Live_run (x : Nat) (ops : List Op) : ∀ (s : Rpc) (m : Nat), Live s x m →
+theorem Live_run (x : Nat) (ops : List Op) : ∀ (s : Rpc) (m : Nat), Safe s → NoCleanupOps ops → Live s x m →
     ∀ (j : Nat) (items : List Nat), (runHanded s ops)[j]? = some items →
       items.count x = if j = m then 1 else 0 := by
   induction ops with
-  | nil => intro s m _ j items h; simp [runHanded] at h
+  | nil => intro s m _ _ _ j items h; simp [runHanded] at h
   | cons op ops ih =>
-    intro s m hl j items h
+    intro s m hs hnc hl j items h
+    have hnc' : NoCleanupOps ops := fun o ho => hnc o (List.mem_cons_of_mem _ ho)
+    have hs' : Safe (step s op).1 := Safe_of_prog _ _ (step_prog s op) hs
     by_cases ht : op = .tick
     · subst ht
       rw [runHanded_tick] at h
@@ -306,29 +309,29 @@ theorem Live_run (x : Nat) (ops : List Op) : ∀ (s : Rpc) (m : Nat), Live s x m
         have hmem := InSlot_swap_zero s x h2
         have hpos : 0 < s.nextItems.count x := List.count_pos_iff.mpr hmem
         have hg : Gone s.tick.1 x :=
-          Gone_adds _ _ x (tick_adds s hne) ⟨h1, afterSwap_ring_ne s, by omega⟩
+          Gone_adds _ _ x (tick_adds s hs hne) ⟨h1, afterSwap_ring_ne s, by omega⟩
         cases j with
         | zero => simp at h; rw [← h]; simp; omega
         | succ j =>
           rw [List.getElem?_cons_succ] at h
-          rw [Gone_run x ops _ hg j items h]; simp
+          rw [Gone_run x ops _ hs' hnc' hg j items h]; simp
       | succ m =>
         obtain ⟨hin, hnot⟩ := InSlot_swap_succ s x m h2
         have hz : s.nextItems.count x = 0 := List.count_eq_zero.mpr hnot
         have hl' : Live s.tick.1 x m :=
-          Live_adds _ _ x m (tick_adds s hne) ⟨h1, hin, by omega⟩
+          Live_adds _ _ x m (tick_adds s hs hne) ⟨h1, hin, by omega⟩
         cases j with
         | zero => simp at h; rw [← h, hz]; simp
         | succ j =>
           rw [List.getElem?_cons_succ] at h
-          rw [ih _ m hl' j items h]; simp
+          rw [ih _ m hs' hnc' hl' j items h]; simp
     · rw [runHanded_nontick s op ops ht] at h
-      exact ih _ m (Live_adds _ _ x m (step_nontick_adds s op ht) hl) j items h
+      exact ih _ m hs' hnc' (Live_adds _ _ x m (step_nontick_adds s hs op ht (hnc op (by simp))) hl) j items h
 
 /-- a fresh request sits in the last slot of the order: `n` ticks to go -/
-theorem Live_request (s : Rpc) (c : Bool) (hr : s.ring ≠ []) (hf : ∀ y ∈ s.ring.flatten, y ≤ s.idAlloc) :
-    Live (s.request c).1 (s.idAlloc + 1) (s.ring.length - 1) := by
-  obtain ⟨h1, h2, _⟩ := request_fields s c
+theorem Live_request (s : Rpc) (c m : Nat) (hr : s.ring ≠ []) (hf : ∀ y ∈ s.ring.flatten, y ≤ s.idAlloc) :
+    Live (s.request c m).1 (s.idAlloc + 1) (s.ring.length - 1) := by
+  obtain ⟨h1, h2, _⟩ := request_fields s c m
   cases hring : s.ring with
   | nil => exact absurd hring hr
   | cons cur rest =>
@@ -382,55 +385,69 @@ theorem find_append (p q : List (Nat × Cb)) (id : Int) :
     pendingFind (p ++ q) id = (pendingFind p id).or (pendingFind q id) := by
   unfold pendingFind; exact List.find?_append
 
-theorem Pend_request (s : Rpc) (c : Bool) (id : Nat) (cb : Cb) (h : Pend s id cb) : Pend (s.request c).1 id cb := by
-  obtain ⟨_, h2, h3, _⟩ := request_fields s c
+theorem Pend_request (s : Rpc) (c m : Nat) (id : Nat) (cb : Cb) (h : Pend s id cb) : Pend (s.request c m).1 id cb := by
+  obtain ⟨_, h2, h3, _⟩ := request_fields s c m
   obtain ⟨hf, hi⟩ := h
   refine ⟨?_, by omega⟩
   rw [h3, find_append, find_erase_ne _ _ _ (by omega), hf]; rfl
 
-theorem Pend_new (s : Rpc) (c : Bool) :
-    Pend (s.request c).1 (s.idAlloc + 1) { tag := s.nTag, chain := c } := by
-  obtain ⟨_, h2, h3, _⟩ := request_fields s c
+theorem Pend_new (s : Rpc) (c m : Nat) :
+    Pend (s.request c m).1 (s.idAlloc + 1) { tag := s.nTag, script := c } := by
+  obtain ⟨_, h2, h3, _⟩ := request_fields s c m
   refine ⟨?_, by omega⟩
   rw [h3, find_append, find_erase_self, find_cons]; simp
 
-theorem Pend_complete (s : Rpc) (y code : Int) (id : Nat) (cb : Cb) (h : Pend s id cb) (hy : y ≠ (id : Int)) :
-    Pend (s.complete y code).1 id cb := by
-  rcases complete_cases s y code with ⟨_, he⟩ | ⟨k, cb', hfind, ⟨_, he⟩ | ⟨_, he⟩⟩
-  · rw [he]; exact h
-  · have hk : k ≠ id := by
-      intro e; apply hy; rw [← (pendingFind_mem _ _ _ _ hfind).2, e]
-    rw [he]
-    exact ⟨by simp only; rw [find_erase_ne _ _ _ hk]; exact h.1, h.2⟩
-  · have hk : k ≠ id := by
-      intro e; apply hy; rw [← (pendingFind_mem _ _ _ _ hfind).2, e]
-    have hr := Pend_request s false id cb h
-    rw [he]
-    exact ⟨by simp only; rw [find_erase_ne _ _ _ hk]; exact hr.1, hr.2⟩
+/-- an act that neither calls `cleanup()` nor injects a response for `id` -/
+def actOkFor (id : Nat) (a : Act) : Prop := a.noCleanup ∧ injectOk (fun y => y ≠ (id : Int)) a
+
+/-- no callback script of the program injects a response for `id` (or calls `cleanup()`) -/
+abbrev QuietFor (s : Rpc) (id : Nat) : Prop := ProgAll (actOkFor id) s.prog
+
+theorem QuietFor_safe (s : Rpc) (id : Nat) (h : QuietFor s id) : Safe s :=
+  ⟨fun sc hsc a ha => (h.1 sc hsc a ha).1, fun hd hh a ha => (h.2 hd hh a ha).1⟩
+
+theorem QuietFor_of_prog (s s' : Rpc) (id : Nat) (h : s'.prog = s.prog) (hq : QuietFor s id) : QuietFor s' id := by
+  unfold QuietFor; rw [h]; exact hq
+
+theorem goodPend (id : Nat) (cb : Cb) :
+    Good (fun a b => b.prog = a.prog ∧ (Pend a id cb → Pend b id cb)) (actOkFor id) (fun y => y ≠ (id : Int)) where
+  refl := fun s => ⟨rfl, fun h => h⟩
+  trans := fun a b c h1 h2 => ⟨h2.1.trans h1.1, fun h => h2.2 (h1.2 h)⟩
+  prog := fun _ _ h => h.1
+  frame := fun s s' h => ⟨h.2.2.2.2.2.2.2.2.2, fun hp => by
+    unfold Pend at hp ⊢; rw [h.2.2.2.1, h.2.1]; exact hp⟩
+  req := fun s c m => ⟨request_prog s c m, Pend_request s c m id cb⟩
+  erase := fun s k hk => ⟨rfl, fun hp => by
+    have hne : k ≠ id := fun e => hk (by rw [e])
+    exact ⟨by simp only; rw [find_erase_ne _ _ _ hne]; exact hp.1, hp.2⟩⟩
+  nc := fun a h => by
+    cases a <;> simp_all [actOkFor, Act.noCleanup, injectOk]
+
+theorem Pend_complete (s : Rpc) (y code : Int) (id : Nat) (cb : Cb) (hq : QuietFor s id) (h : Pend s id cb)
+    (hy : y ≠ (id : Int)) : Pend (s.complete y code).1 id cb :=
+  ((goodPend id cb).complete s hq y code hy).2 h
 
 theorem Pend_fires (s : Rpc) (code : Int) (id : Nat) (cb : Cb) (h : Pend s id cb) :
     REv.fired cb.tag code ∈ (s.complete (id : Int) code).2 := by
-  rcases complete_cases s id code with ⟨hn, _⟩ | ⟨k, cb', hfind, ⟨_, he⟩ | ⟨_, he⟩⟩
-  · rw [h.1] at hn; simp at hn
-  · rw [h.1] at hfind; simp at hfind; rw [he, ← hfind.2]; simp
-  · rw [h.1] at hfind; simp at hfind; rw [he, ← hfind.2]; simp
+  simp [Rpc.complete, maxDepth, Rpc.completeF, h.1]
 
 theorem Pend_completeAll (code : Int) (id : Nat) (cb : Cb) (items : List Nat) :
-    ∀ s : Rpc, Pend s id cb →
+    ∀ s : Rpc, QuietFor s id → Pend s id cb →
       (id ∉ items → Pend (s.completeAll code items).1 id cb) ∧
       (id ∈ items → REv.fired cb.tag code ∈ (s.completeAll code items).2) := by
   induction items with
-  | nil => intro s h; exact ⟨fun _ => h, fun hm => by simp at hm⟩
+  | nil => intro s _ h; exact ⟨fun _ => h, fun hm => by simp at hm⟩
   | cons y ys ih =>
-    intro s h
+    intro s hq h
     simp only [Rpc.completeAll]
     by_cases hy : y = id
     · subst hy
       refine ⟨fun hn => by simp at hn, fun _ => ?_⟩
       exact List.mem_append_left _ (Pend_fires s code y cb h)
     · have hyi : (y : Int) ≠ (id : Int) := by intro e; exact hy (Int.ofNat_inj.mp e)
-      have h' := Pend_complete s y code id cb h hyi
-      have := ih _ h'
+      have h' := Pend_complete s y code id cb hq h hyi
+      have hq' : QuietFor (s.complete y code).1 id := QuietFor_of_prog _ _ id (complete_prog s y code) hq
+      have := ih _ hq' h'
       refine ⟨fun hn => this.1 (by simp at hn; exact hn.2), fun hm => ?_⟩
       have hm' : id ∈ ys := by
         rcases List.mem_cons.mp hm with e | e
@@ -445,53 +462,63 @@ theorem InSlot_adds (s s' : Rpc) (x m : Nat) (h : Adds s s') (hi : InSlot s.ring
 def NoResponseFor (id : Nat) (ops : List Op) : Prop :=
   ∀ rid code, Op.response rid code ∈ ops → respIdG true rid ≠ some (id : Int)
 
-theorem Track_run (id : Nat) (cb : Cb) (ops : List Op) : ∀ (s : Rpc) (m : Nat),
-    Pend s id cb → InSlot s.ring id m → NoResponseFor id ops → ticks ops = m →
+/-- one op that is neither a tick, nor `cleanup()`, nor a response for `id` keeps the request pending -/
+theorem Pend_step (s : Rpc) (op : Op) (id : Nat) (cb : Cb) (hq : QuietFor s id) (ht : op ≠ .tick)
+    (hc : op ≠ .cleanup) (hr : ∀ rid code, op = .response rid code → respIdG true rid ≠ some (id : Int))
+    (h : Pend s id cb) : Pend (step s op).1 id cb := by
+  have g := goodPend id cb
+  cases op with
+  | request c m => exact Pend_request s c m id cb h
+  | notify m => exact h
+  | response rid code =>
+    exact (g.respond s hq rid code (fun y hy e => hr rid code rfl (by rw [hy, e]))).2 h
+  | tick => exact absurd rfl ht
+  | apiRespond i code => exact (g.frame _ _ (apiRespond_frame s i code)).2 h
+  | inRequest i m => exact (g.onRequest s hq i m).2 h
+  | stick => exact (g.frame s _ ⟨rfl, rfl, rfl, rfl, rfl, rfl, rfl, rfl, rfl, rfl⟩).2 h
+  | setService m hh => exact (g.frame s _ ⟨rfl, rfl, rfl, rfl, rfl, rfl, rfl, rfl, rfl, rfl⟩).2 h
+  | cleanup => exact absurd rfl hc
+
+theorem Track_run (id : Nat) (cb : Cb) (ops : List Op) : ∀ (s : Rpc) (m : Nat), QuietFor s id →
+    Pend s id cb → InSlot s.ring id m → NoResponseFor id ops → NoCleanupOps ops → ticks ops = m →
     Pend (run s ops).1 id cb ∧ InSlot (run s ops).1.ring id 0 := by
   induction ops with
-  | nil => intro s m hp hi _ ht; simp [ticks] at ht; subst ht; exact ⟨hp, hi⟩
+  | nil => intro s m _ hp hi _ _ ht; simp [ticks] at ht; subst ht; exact ⟨hp, hi⟩
   | cons op ops ih =>
-    intro s m hp hi hno ht
+    intro s m hq hp hi hno hnc ht
     have hno' : NoResponseFor id ops := fun rid code hm => hno rid code (List.mem_cons_of_mem _ hm)
+    have hnc' : NoCleanupOps ops := fun o ho => hnc o (List.mem_cons_of_mem _ ho)
+    have hq' : QuietFor (step s op).1 id := QuietFor_of_prog _ _ id (step_prog s op) hq
+    have hs : Safe s := QuietFor_safe s id hq
     simp only [run]
-    cases op with
-    | tick =>
+    by_cases hti : op = .tick
+    · subst hti
       simp only [ticks] at ht
       subst ht
       have hne : s.ring ≠ [] := by
         obtain ⟨pre, slot, post, ho, _⟩ := hi
         intro e; rw [e] at ho; simp [order] at ho
       obtain ⟨hin, hnot⟩ := InSlot_swap_succ s id (ticks ops) hi
+      have hqa : QuietFor s.afterSwap id := hq
       have hp' : Pend s.tick.1 id cb := by
         rw [tick_eq s hne]
-        exact (Pend_completeAll kRequestTimeout id cb s.nextItems s.afterSwap hp).1 hnot
-      exact ih _ _ hp' (InSlot_adds _ _ id _ (tick_adds s hne) hin) hno' rfl
-    | request c =>
-      simp only [ticks] at ht
-      exact ih _ _ (Pend_request s c id cb hp) (InSlot_adds _ _ id m (Adds_request s c) hi) hno' ht
-    | notify =>
-      simp only [ticks] at ht
-      exact ih _ _ hp hi hno' ht
-    | response rid code =>
-      simp only [ticks] at ht
-      have hp' : Pend (step s (.response rid code)).1 id cb := by
-        simp only [step, Rpc.respond, Rpc.respondG]
-        cases hr : respIdG true rid with
-        | none => exact hp
-        | some y =>
-          have : y ≠ (id : Int) := by
-            intro e; exact hno rid code (List.mem_cons_self) (by rw [hr, e])
-          exact Pend_complete s y code id cb hp this
-      exact ih _ _ hp' (InSlot_adds _ _ id m (Adds_respond s rid code) hi) hno' ht
+        exact (Pend_completeAll kRequestTimeout id cb s.nextItems s.afterSwap hqa hp).1 hnot
+      exact ih _ _ hq' hp' (InSlot_adds _ _ id _ (tick_adds s hs hne) hin) hno' hnc' rfl
+    · have hcl : op ≠ .cleanup := hnc op (by simp)
+      have ht' : ticks ops = m := by
+        cases op <;> first | exact absurd rfl hti | simpa [ticks] using ht
+      have hp' := Pend_step s op id cb hq hti hcl
+        (fun rid code e => hno rid code (by rw [e]; simp)) hp
+      exact ih _ _ hq' hp' (InSlot_adds _ _ id m (step_nontick_adds s hs op hti hcl) hi) hno' hnc' ht'
 
 /-- the tick that hands the id out completes the request with the timeout code -/
-theorem Track_fire (s : Rpc) (id : Nat) (cb : Cb) (hp : Pend s id cb) (hi : InSlot s.ring id 0) :
-    REv.fired cb.tag kRequestTimeout ∈ s.tick.2 := by
+theorem Track_fire (s : Rpc) (id : Nat) (cb : Cb) (hq : QuietFor s id) (hp : Pend s id cb)
+    (hi : InSlot s.ring id 0) : REv.fired cb.tag kRequestTimeout ∈ s.tick.2 := by
   have hne : s.ring ≠ [] := by
     obtain ⟨pre, slot, post, ho, _⟩ := hi
     intro e; rw [e] at ho; simp [order] at ho
   rw [tick_eq s hne]
-  exact (Pend_completeAll kRequestTimeout id cb s.nextItems s.afterSwap hp).2 (InSlot_swap_zero s id hi)
+  exact (Pend_completeAll kRequestTimeout id cb s.nextItems s.afterSwap hq hp).2 (InSlot_swap_zero s id hi)
 
 /-! ### pending ⊆ ring, `value_number_` = ring size, timer enabled iff non-empty -/
 
@@ -518,9 +545,9 @@ theorem mem_pendingErase (p : List (Nat × Cb)) (k : Nat) (e : Nat × Cb) (h : e
   unfold pendingErase at h
   simpa using h
 
-theorem TInv_request (s : Rpc) (c : Bool) (todo : List Nat) (h : TInv s todo) : TInv (s.request c).1 todo := by
+theorem TInv_request (s : Rpc) (c m : Nat) (todo : List Nat) (h : TInv s todo) : TInv (s.request c m).1 todo := by
   obtain ⟨h1, h2, h3, h4⟩ := h
-  obtain ⟨r1, _, r3, _, r5, r6⟩ := request_fields s c
+  obtain ⟨r1, _, r3, _, r5, r6⟩ := request_fields s c m
   obtain ⟨f1, f2, f3⟩ := flatten_addRing s.ring (s.idAlloc + 1) h1
   refine ⟨by rw [r1]; exact addRing_ne _ _ h1, by rw [r5, r1, f1, h2], ?_, ?_⟩
   · rw [r5, r6]
@@ -543,15 +570,26 @@ theorem TInv_erase (s : Rpc) (k : Nat) (todo : List Nat) (h : TInv s todo) :
   obtain ⟨h1, h2, h3, h4⟩ := h
   exact ⟨h1, h2, h3, fun e he => h4 e (mem_pendingErase _ _ _ he).1⟩
 
-theorem TInv_complete (s : Rpc) (y code : Int) (todo : List Nat) (h : TInv s todo) :
-    TInv (s.complete y code).1 todo := by
-  rcases complete_cases s y code with ⟨_, he⟩ | ⟨k, cb, _, ⟨_, he⟩ | ⟨_, he⟩⟩
-  · rw [he]; exact h
-  · rw [he]; exact TInv_erase s k todo h
-  · rw [he]; exact TInv_erase _ k todo (TInv_request s false todo h)
+theorem TInv_frame (s s' : Rpc) (todo : List Nat) (hf : CFrame s s') (h : TInv s todo) : TInv s' todo := by
+  obtain ⟨_, _, _, fp, fr, fv, ft, _, _, _⟩ := hf
+  unfold TInv at h ⊢
+  rw [fp, fr, fv, ft]; exact h
+
+theorem goodTInv : Good (fun a b => b.prog = a.prog ∧ ∀ todo, TInv a todo → TInv b todo) Act.noCleanup (fun _ => True) where
+  refl := fun s => ⟨rfl, fun _ h => h⟩
+  trans := fun a b c h1 h2 => ⟨h2.1.trans h1.1, fun t h => h2.2 t (h1.2 t h)⟩
+  prog := fun _ _ h => h.1
+  frame := fun s s' h => ⟨h.2.2.2.2.2.2.2.2.2, fun t ht => TInv_frame s s' t h ht⟩
+  req := fun s c m => ⟨request_prog s c m, fun t h => TInv_request s c m t h⟩
+  erase := fun s k _ => ⟨rfl, fun t h => TInv_erase s k t h⟩
+  nc := fun a h => noCleanup_nc _ (fun _ => trivial) a h
+
+theorem TInv_complete (s : Rpc) (hs : Safe s) (y code : Int) (todo : List Nat) (h : TInv s todo) :
+    TInv (s.complete y code).1 todo :=
+  (goodTInv.complete s hs y code trivial).2 todo h
 
 /-- handling the head of the to-do list discharges it -/
-theorem TInv_complete_head (s : Rpc) (y : Nat) (code : Int) (todo : List Nat) (h : TInv s (y :: todo)) :
+theorem TInv_complete_head (s : Rpc) (hs : Safe s) (y : Nat) (code : Int) (todo : List Nat) (h : TInv s (y :: todo)) :
     TInv (s.complete (y : Int) code).1 todo := by
   have drop : ∀ (t : Rpc), TInv t (y :: todo) → (∀ e ∈ t.pending, e.1 ≠ y) → TInv t todo := by
     intro t ⟨h1, h2, h3, h4⟩ hne
@@ -561,32 +599,51 @@ theorem TInv_complete_head (s : Rpc) (y : Nat) (code : Int) (todo : List Nat) (h
     · rcases List.mem_cons.mp h with h | h
       · exact absurd h (hne e he)
       · exact Or.inr h
-  rcases complete_cases s y code with ⟨hn, he⟩ | ⟨k, cb, hfind, ⟨_, he⟩ | ⟨_, he⟩⟩
-  · rw [he]
+  simp only [Rpc.complete, maxDepth, Rpc.completeF]
+  cases hfind : pendingFind s.pending (y : Int) with
+  | none =>
     apply drop s h
     intro e hm heq
-    unfold pendingFind at hn
-    have := List.find?_eq_none.mp hn e hm
+    unfold pendingFind at hfind
+    have := List.find?_eq_none.mp hfind e hm
     simp [heq] at this
-  · have hk : k = y := Int.ofNat_inj.mp (pendingFind_mem _ _ _ _ hfind).2
-    rw [he]
-    apply drop _ (TInv_erase s k _ h)
-    intro e hm
-    rw [← hk]; exact (mem_pendingErase _ _ _ hm).2
-  · have hk : k = y := Int.ofNat_inj.mp (pendingFind_mem _ _ _ _ hfind).2
-    rw [he]
-    apply drop _ (TInv_erase _ k _ (TInv_request s false _ h))
-    intro e hm
-    rw [← hk]; exact (mem_pendingErase _ _ _ hm).2
+  | some e =>
+    obtain ⟨k, cb⟩ := e
+    simp only
+    have hk : k = y := Int.ofNat_inj.mp (pendingFind_mem _ _ _ _ hfind).2
+    have h1 : TInv ({ s with pending := pendingErase s.pending k } : Rpc) todo := by
+      apply drop _ (TInv_erase s k _ h)
+      intro e hm
+      rw [← hk]; exact (mem_pendingErase _ _ _ hm).2
+    -- the script runs from the erased state
+    have hrun := runActs_rel' (fun a b => b.prog = a.prog ∧ ∀ todo, TInv a todo → TInv b todo)
+      goodTInv.refl goodTInv.trans goodTInv.prog Act.noCleanup (fun _ => True)
+    have := completeF_rel (fun a b => b.prog = a.prog ∧ ∀ todo, TInv a todo → TInv b todo)
+      goodTInv.refl goodTInv.trans goodTInv.prog Act.noCleanup (fun _ => True)
+      (fun k hk cur s a hp ha => frame_doAct _ goodTInv.frame goodTInv.req Act.noCleanup (fun _ => True) goodTInv.nc k hk cur s a hp ha)
+      goodTInv.erase 31
+    -- run the acts by the generic lemma at fuel 31
+    have key : ∀ (as : List Act), (∀ a ∈ as, a.noCleanup) → ∀ t : Rpc, Safe t →
+        (fun a b => b.prog = a.prog ∧ ∀ todo, TInv a todo → TInv b todo) t (runActsWith (Rpc.completeF 31) 0 t as).1 := by
+      intro as
+      induction as with
+      | nil => intro _ t _; exact goodTInv.refl t
+      | cons a as iha =>
+        intro hall t ht
+        simp only [runActsWith]
+        have h1 := frame_doAct _ goodTInv.frame goodTInv.req Act.noCleanup (fun _ => True) goodTInv.nc
+          (Rpc.completeF 31) (fun s hp id code _ => this s hp id code trivial) 0 t a ht (hall a (by simp))
+        exact goodTInv.trans _ _ _ h1 (iha (fun b hb => hall b (by simp [hb])) _ (Safe_of_prog _ _ h1.1 ht))
+    exact (key _ (script_allowed Act.noCleanup s.prog hs cb.script) _ hs).2 todo h1
 
-theorem TInv_completeAll (code : Int) (items : List Nat) : ∀ (s : Rpc) (todo : List Nat),
+theorem TInv_completeAll (code : Int) (items : List Nat) : ∀ (s : Rpc) (todo : List Nat), Safe s →
     TInv s (items ++ todo) → TInv (s.completeAll code items).1 todo := by
   induction items with
-  | nil => intro s todo h; exact h
+  | nil => intro s todo _ h; exact h
   | cons y ys ih =>
-    intro s todo h
+    intro s todo hs h
     simp only [Rpc.completeAll]
-    exact ih _ todo (TInv_complete_head s y code (ys ++ todo) h)
+    exact ih _ todo (Safe_of_prog _ _ (complete_prog s y code) hs) (TInv_complete_head s hs y code (ys ++ todo) h)
 
 theorem TInv_afterSwap (s : Rpc) (h : TInv s []) : TInv s.afterSwap (s.nextItems ++ []) := by
   obtain ⟨h1, h2, h3, h4⟩ := h
@@ -618,25 +675,30 @@ theorem TInv_afterSwap (s : Rpc) (h : TInv s []) : TInv s.afterSwap (s.nextItems
       · exact Or.inl h
     · simp at hm
 
-theorem TInv_tick (s : Rpc) (h : TInv s []) : TInv s.tick.1 [] := by
+theorem TInv_tick (s : Rpc) (hs : Safe s) (h : TInv s []) : TInv s.tick.1 [] := by
   rw [tick_eq s h.1]
-  exact TInv_completeAll _ _ _ [] (TInv_afterSwap s h)
+  exact TInv_completeAll _ _ _ [] hs (TInv_afterSwap s h)
 
-theorem TInv_step (s : Rpc) (op : Op) (h : TInv s []) : TInv (step s op).1 [] := by
+theorem TInv_step (s : Rpc) (hs : Safe s) (op : Op) (hc : op ≠ .cleanup) (h : TInv s []) : TInv (step s op).1 [] := by
   cases op with
-  | request c => exact TInv_request s c [] h
-  | notify => exact h
-  | response rid code =>
-    simp only [step, Rpc.respond, Rpc.respondG]
-    split
-    · exact h
-    · exact TInv_complete s _ code [] h
-  | tick => exact TInv_tick s h
+  | request c m => exact TInv_request s c m [] h
+  | notify m => exact h
+  | response rid code => exact (goodTInv.respond s hs rid code (fun _ _ => trivial)).2 [] h
+  | tick => exact TInv_tick s hs h
+  | apiRespond id code => exact TInv_frame _ _ [] (apiRespond_frame s id code) h
+  | inRequest id m => exact (goodTInv.onRequest s hs id m).2 [] h
+  | stick => exact h
+  | setService m hh => exact h
+  | cleanup => exact absurd rfl hc
 
-theorem TInv_run (ops : List Op) : ∀ s : Rpc, TInv s [] → TInv (run s ops).1 [] := by
+theorem TInv_run (ops : List Op) : ∀ s : Rpc, Safe s → NoCleanupOps ops → TInv s [] → TInv (run s ops).1 [] := by
   induction ops with
-  | nil => intro s h; exact h
-  | cons op ops ih => intro s h; simp only [run]; exact ih _ (TInv_step s op h)
+  | nil => intro s _ _ h; exact h
+  | cons op ops ih =>
+    intro s hs hnc h
+    simp only [run]
+    exact ih _ (Safe_of_prog _ _ (step_prog s op) hs) (fun o ho => hnc o (List.mem_cons_of_mem _ ho))
+      (TInv_step s hs op (hnc op (by simp)) h)
 
 theorem TInv_init (n : Nat) (h : 1 ≤ n) : TInv (Rpc.init n) [] := by
   refine ⟨?_, ?_, ?_, ?_⟩
